@@ -160,7 +160,17 @@ def run(chk, w):
         if s.op == "store" and s["ptr"].get("k") == "inst" and s["ptr"]["id"] in data_cells:
             v = asm.resolve(rules.strip_casts(asm, s["val"]))
             if v is not None and v.op == "xor":
-                xor_stores.append((s, rules.const_of(asm, v["b"])))
+                xc = rules.const_of(asm, v["b"])
+                if xc is None:
+                    # `data ^= mask` with a mask variable that is only ever 0 or the escape constant
+                    msrc = rules.load_source(asm, v["b"]) or rules.load_source(asm, v["a"])
+                    if msrc and msrc[0] == "alloca":
+                        vals = {rules.const_of(asm, st_["val"]) for st_ in asm.all_insts() if st_.op == "store" and st_["ptr"].get("k") == "inst" and st_["ptr"]["id"] == msrc[1]}
+                        if None not in vals and vals - {0}:
+                            nz = {x & 0xff for x in vals if x}
+                            if len(nz) == 1:
+                                xc = nz.pop()
+                xor_stores.append((s, xc))
     cmps = {}
     for i in asm.all_insts():
         if i.op == "icmp" and i["pred"] in ("eq", "ne"):
